@@ -2,43 +2,74 @@
   C12 — TLS: servers are authenticated unless the caller explicitly opts out.
   PARTIAL: the theorem covers the flag and root plumbing of the four backend blocks (Model/Tls.lean) under
   the stated behaviour of the TLS libraries; the assurance that the libraries behave so comes from running
-  the complete 240-cell matrix for real on every check (both clients, both backends, real handshakes).
+  the complete matrix for real on every check (both clients, both backends, real handshakes).
 -/
 import IppModel.Model.Tls
 namespace Ipp.Props.C12
 open Ipp
 
+/-- the caller explicitly asked to ignore TLS errors: the most recent call of the setter said `true` -/
+def optedOut (ig : IgnoreArg) : Bool := ig.getLast? == some true
+
 /-- what the property demands -/
 def shouldAccept (ig : IgnoreArg) (root : RootArg) (cert : CertKind) : Bool :=
-  ig = .setTrue || (cert = .valid && (root = .correctPem || root = .correctDer))
+  optedOut ig || (cert = .valid && (root = .correctPem || root = .correctDer))
 
-/-- the whole matrix: {blocking, async} × {native-tls, rustls} × {unset, false, true} ×
-    {no root, PEM, DER, unrelated} × {valid, wrong name, expired, self-signed, unknown CA} -/
-theorem matrix (c : ClientKind) (b : Backend) (ig : IgnoreArg) (root : RootArg) (cert : CertKind) :
-    accepts c b ig root cert = shouldAccept ig root cert := by
-  cases c <;> cases b <;> cases ig <;> cases root <;> cases cert <;> rfl
+theorem foldl_last (l : List Bool) (i : Bool) : l.foldl (fun _ flag => flag) i = l.getLast?.getD i := by
+  induction l generalizing i with
+  | nil => rfl
+  | cons a t ih =>
+    rw [List.foldl_cons, ih]
+    cases t with
+    | nil => rfl
+    | cons b t =>
+      rw [List.getLast?_cons_cons]
+      cases h : (b :: t).getLast? with
+      | none => simp [List.getLast?_eq_none_iff] at h
+      | some x => rfl
+
+/-- the flag the builder ends with is the one of the most recent call; false when there was none -/
+theorem flag_is_last_call (ig : IgnoreArg) : ignoreFlag ig = optedOut ig := by
+  unfold ignoreFlag optedOut
+  rw [foldl_last]
+  cases h : ig.getLast? with
+  | none => rfl
+  | some b => cases b <;> rfl
+
+/-- the whole matrix: {blocking, async} × {native-tls, rustls} × every sequence of setter calls ×
+    {no root, PEM, DER, unrelated} × {valid, wrong name, expired, self-signed, unknown CA} × {DNS name, IP literal} -/
+theorem matrix (c : ClientKind) (b : Backend) (ig : IgnoreArg) (root : RootArg) (cert : CertKind) (host : HostKind) :
+    accepts c b ig root cert host = shouldAccept ig root cert := by
+  unfold accepts shouldAccept tlsParams
+  rw [flag_is_last_call]
+  cases optedOut ig <;> cases c <;> cases b <;> cases root <;> cases cert <;> rfl
 
 /-- unless the caller opts out, nothing is relaxed and every supplied root (PEM or DER) reaches the trust store -/
-theorem plumbing (c : ClientKind) (b : Backend) (ig : IgnoreArg) (root : RootArg) (h : ig ≠ .setTrue) :
+theorem plumbing (c : ClientKind) (b : Backend) (ig : IgnoreArg) (root : RootArg) (h : optedOut ig = false) :
     let p := tlsParams c b ig root
     p.acceptInvalidCerts = false ∧ p.acceptInvalidHostnames = false ∧ p.noVerifier = false ∧ p.buildFails = false ∧
     (∀ ca e, rootData root = some (ca, e) → ca ∈ p.roots) := by
-  cases c <;> cases b <;> cases ig <;> cases root <;> simp_all [tlsParams, ignoreFlag, rootData, rootEffective,
+  rw [← flag_is_last_call] at h
+  cases c <;> cases b <;> cases root <;> simp_all [tlsParams, rootData, rootEffective,
     nativeFromPem, nativeFromDer, pkiFromPemSlice]
 
 /-- the default (flag never set) is to verify -/
-theorem default_verifies : ignoreFlag .unset = false := rfl
+theorem default_verifies : ignoreFlag [] = false := rfl
+
+/-- a later `ignore_tls_errors(false)` takes an earlier opt-out back -/
+theorem opt_out_can_be_revoked (before : IgnoreArg) : ignoreFlag (before ++ [false]) = false := by
+  rw [flag_is_last_call]; simp [optedOut]
 
 /-- a server whose certificate is untrusted, expired or for another name is rejected without opt-out -/
 theorem bad_certificates_rejected (c : ClientKind) (b : Backend) (ig : IgnoreArg) (root : RootArg) (cert : CertKind)
-    (h : ig ≠ .setTrue) (hc : cert ≠ .valid) : accepts c b ig root cert = false := by
+    (host : HostKind) (h : optedOut ig = false) (hc : cert ≠ .valid) : accepts c b ig root cert host = false := by
   rw [matrix]
-  cases ig <;> cases cert <;> simp_all [shouldAccept]
+  cases cert <;> simp_all [shouldAccept]
 
 /-- a valid server is accepted with the correct root in either encoding -/
-theorem valid_with_root_accepted (c : ClientKind) (b : Backend) (ig : IgnoreArg) :
-    accepts c b ig .correctPem .valid = true ∧ accepts c b ig .correctDer .valid = true := by
-  cases c <;> cases b <;> cases ig <;> exact ⟨rfl, rfl⟩
+theorem valid_with_root_accepted (c : ClientKind) (b : Backend) (ig : IgnoreArg) (host : HostKind) :
+    accepts c b ig .correctPem .valid host = true ∧ accepts c b ig .correctDer .valid host = true := by
+  rw [matrix, matrix]; simp [shouldAccept]
 
 /-- the defect repaired by the DER-root fix (F7): the old async block on the rustls backend lost a DER root -/
 theorem old_async_rustls_lost_der_root : rootEffectiveAsyncOld .rustls .der = some false ∧
